@@ -195,6 +195,7 @@ static void reb_saba_corrector_step(struct reb_simulation* r, double cc){
 }
 
 void reb_integrator_saba_part1(struct reb_simulation* const r){
+    if (r->N==0) return; // Nothing to integrate (all particles removed). The coordinate transformations assume N>0.
     struct reb_integrator_whfast* const ri_whfast = &(r->ri_whfast);
     struct reb_integrator_saba* const ri_saba = &(r->ri_saba);
     const int type = ri_saba->type;
@@ -259,6 +260,7 @@ void reb_integrator_saba_part1(struct reb_simulation* const r){
 }
 
 void reb_integrator_saba_synchronize(struct reb_simulation* const r){
+    if (r->N==0) return;
     struct reb_integrator_whfast* const ri_whfast = &(r->ri_whfast);
     struct reb_integrator_saba* const ri_saba = &(r->ri_saba);
     int type = ri_saba->type;
@@ -288,6 +290,11 @@ void reb_integrator_saba_synchronize(struct reb_simulation* const r){
 }
 
 void reb_integrator_saba_part2(struct reb_simulation* const r){
+    if (r->N==0){
+        r->t+=r->dt;
+        r->dt_last_done = r->dt;
+        return;
+    }
     struct reb_integrator_whfast* const ri_whfast = &(r->ri_whfast);
     struct reb_integrator_saba* const ri_saba = &(r->ri_saba);
     struct reb_particle* restrict const particles = r->particles;
